@@ -83,6 +83,12 @@ def cases(tier: str, seed: int) -> List[Dict[str, Any]]:
         for env in ("no_grad", "inference_mode", "default_dtype=float64", "default_dtype=bfloat16", "default_dtype=float16", "noncontiguous", "expanded_batch"):
             for dt in ("float64", "float32"):
                 out.append({"kind": "probe", "op": name, "cfg": dict(default_cfg(op), dtype=dt), "seed": seed, "env": env})
+    # value magnitude (all finite values): scale-free ops in low precision with large / tiny inputs
+    for name in ("rms_norm", "layer_norm", "softmax"):
+        for dt in ("float16", "bfloat16", "float32"):
+            for mag in ("magnitude=300", "magnitude=0.0001", "magnitude=30"):
+                for extra in ({}, {"eps": 1e-2} if name != "softmax" else {"mult": 0.25}):
+                    out.append({"kind": "probe", "op": name, "cfg": dict(default_cfg(OPS[name]), dtype=dt, **extra), "seed": seed, "env": mag})
     for name, cfgs in TINY.items():
         for o in cfgs:
             cfg = dict(default_cfg(OPS[name]), **o)
